@@ -25,6 +25,10 @@ class AsyncWorker(base.Worker):
     def timeout_ctx(self):
         raise NotImplementedError()
 
+    def stop_accepting(self):
+        """Stop taking new connections at once (the listeners themselves are
+        closed by run()); the connections already accepted are served."""
+
     def is_already_handled(self, respiter):
         # some workers will need to overload this function to raise a StopIteration
         return respiter == ALREADY_HANDLED
@@ -105,6 +109,9 @@ class AsyncWorker(base.Worker):
                 if self.alive:
                     self.log.info("Autorestarting worker after current request.")
                     self.alive = False
+                    # run() only notices at its next heartbeat: until then
+                    # nothing new may be accepted
+                    self.stop_accepting()
 
             if not self.alive or not self.cfg.keepalive:
                 resp.force_close()
